@@ -244,16 +244,14 @@ class Matcher:
     strict=False : a reference is transparent (ISO 32000-1 §7.3.10: an indirect reference stands for the object)
     Pairs (source number, new number) met at corresponding positions are collected in `pairs`."""
 
-    def __init__(self, gs, gn, strict=False, ignore_keys=(), content_aware=False, pattern_lost_ok=()):
+    def __init__(self, gs, gn, strict=False, ignore_keys=(), content_aware=False):
         self.gs, self.gn, self.strict = gs, gn, strict
         self.pairs = set()
         self.seen = set()
         self.ignore = set(ignore_keys)
         # content_aware: a tiling pattern (PatternType 1, §8.7.3) is a content stream with its own resources: its data is
         # compared as an operation sequence and its /Resources by the names the operations use (as for a page).
-        # pattern_lost_ok: entries of a tiling pattern's dictionary that the copy may lack (named by the caller, never by default)
         self.content_aware = content_aware
-        self.pattern_lost_ok = set(pattern_lost_ok)
 
     def eq(self, a, b, path="", top_ignore=()):
         if isinstance(a, Ref) and isinstance(b, Ref):
@@ -360,7 +358,7 @@ class Matcher:
         lb = deref(self.gn, b.d.get("Length"))
         if lb != len(b.data):
             raise Diff("%s: /Length %r of the copy differs from its %d data bytes" % (path, lb, len(b.data)))
-        da = {k: v for k, v in a.d.items() if k not in skip and not (k in self.pattern_lost_ok and k not in b.d)}
+        da = {k: v for k, v in a.d.items() if k not in skip}
         db = {k: v for k, v in b.d.items() if k not in skip}
         self.eq(da, db, path + "{pattern}")
         ta, tb = tokens(xa), tokens(xb)
@@ -804,7 +802,7 @@ def split_import_result(fields):
 PAGE_JUDGED = ("Type", "Parent", "Resources", "MediaBox", "CropBox", "TrimBox", "Contents", "Rotate", "Annots")
 
 
-def judge_import(gs, src_trailer, sel, fields, expect=None, content_tokens=True, pattern_lost_ok=(), page_entries=False):
+def judge_import(gs, src_trailer, sel, fields, expect=None, content_tokens=True, page_entries=False):
     """None if the imported pages satisfy C20, else the reason.
 
     gs / src_trailer : the source graph and trailer dictionary (known by construction, or the dump of the source)
@@ -824,7 +822,7 @@ def judge_import(gs, src_trailer, sel, fields, expect=None, content_tokens=True,
     npages = pages_of(gn, tn)
     if len(npages) != len(sel):
         return "the new page tree has %d leaves instead of %d" % (len(npages), len(sel))
-    M = Matcher(gs, gn, strict=False, content_aware=True, pattern_lost_ok=pattern_lost_ok)
+    M = Matcher(gs, gn, strict=False, content_aware=True)
     for j, pi in enumerate(sel):
         if pi >= len(spages):
             return "source has no page %d" % pi
